@@ -3,7 +3,7 @@ import z3
 from pyvc.contract import Contract, LoopSpec
 from pyvc.values import (V, Int, Str, Bool, SeqV, NONE, ABSENT, TRUE, FALSE, truthy, clsof, keys_of,
                          mk_bool, mk_str, mk_int, mk_seq, qforall, EMPTY_MAP, EMPTY_SET, SetS)
-from specs.wf import wf_tree, tree_axioms, fp
+from specs.wf import tree_height, wf_tree, tree_axioms, fp
 from specs.validate import undef, cyc, undef_unfold, cyc_unfold
 from .util import forall_idx, exists_idx
 
@@ -54,6 +54,7 @@ def register(reg, stubs, world):
         return [('no-earlier-operand-has-an-undefined-reference',
                  forall_idx(L.i, lambda k: z3.Not(undef(L.elem(k), m)), 'uinv'))]
     reg.add(Contract('policy:Enforcer._undefined_check', pre=u_pre, post=u_post, axioms=u_axioms, heap_axioms=tree_axioms,
+                     decreases=lambda cx: tree_height(cx['check']),
                      loops={1: LoopSpec(u_inv)}, props=('C13',)))
 
     # ------------------------------------------------------------------ _cycle_check
@@ -74,7 +75,7 @@ def register(reg, stubs, world):
     def c_axioms(cx):
         eng, st = cx.eng, cx.st0
         R, m = rules_of(eng, st, cx['self'])
-        return [cyc_unfold(eng, st, cx['check'], seen0(cx), m)]
+        return [cyc_unfold(eng, st, cx['check'], seen0(cx), m)] + unseen_lemma(cx)
 
     def c_post(cx, out):
         eng, st = cx.eng, cx.st0
@@ -100,11 +101,36 @@ def register(reg, stubs, world):
                     eng.val(L.st, seen) == eng.val(L.entry, seen))),
                 ('no-earlier-operand-reaches-a-cycle',
                  forall_idx(L.i, lambda k: z3.Not(cyc(L.elem(k), S, m)), 'cinv'))]
+    unseen = z3.Function('unseen_names', z3.ArraySort(Str, V), z3.ArraySort(Str, Bool), Int)
+
+    def cyc_measure(cx):
+        """(number of defined rule names not yet in `seen`, height of the tree): a reference adds a new defined name to
+        `seen`, every other recursive call keeps `seen` and descends into a sub-tree"""
+        eng, st = cx.eng, cx.st0
+        rules_m = V.m(eng.val(st, eng.get(st, cx['self'], 'rules')))
+        seen = cx['seen']
+        S = z3.If(seen == NONE, z3.K(Str, z3.BoolVal(False)), V.elems(eng.val(st, seen)))
+        return [unseen(rules_m, S), tree_height(cx['check'])]
+
+    def unseen_lemma(cx):
+        """trusted lemma about finite sets: the count of defined names outside S is non-negative and drops when a defined
+        name that was outside S is added to S"""
+        eng, st = cx.eng, cx.st0
+        rules_m = V.m(eng.val(st, eng.get(st, cx['self'], 'rules')))
+        S = z3.Const('un!S', z3.ArraySort(Str, Bool))
+        k = z3.String('un!k')
+        return [qforall([S], unseen(rules_m, S) >= 0, patterns=[unseen(rules_m, S)]),
+                qforall([S, k], z3.Implies(z3.And(z3.Select(rules_m, k) != ABSENT, z3.Not(z3.Select(S, k))),
+                                           unseen(rules_m, z3.Store(S, k, True)) < unseen(rules_m, S)),
+                        patterns=[unseen(rules_m, z3.Store(S, k, True))])]
+
     reg.add(Contract('policy:Enforcer._cycle_check', pre=c_pre, post=c_post, axioms=c_axioms, heap_axioms=tree_axioms,
+                     decreases=cyc_measure,
                      modifies=('$val',), frame=c_frame, allocates=True, preserves=('wf_tree',),
                      cases=lambda cx: [cx['seen'] == NONE, cx['seen'] != NONE],
                      loops={1: LoopSpec(c_inv, havoc=('$val',), fresh_only=True)}, props=('C13',),
-                     assumptions=('partial correctness: termination of the cycle walk itself is not proved',)))
+                     assumptions=('termination of the cycle walk is proved from the measure (defined names not yet seen, tree height); the '
+                                  'finite-set lemma behind the first component (unseen_lemma) is trusted',)))
     register_check_rules(reg)
 
 
